@@ -80,7 +80,7 @@ Definition run_call (cfg : config) (st : cstate) (c : call) (now : Z) (s : sched
    else match res with COk a => ORet a | CErr e r => ORaise e r end, st', t, s', tr).
 
 Inductive op :=
-  | OSprEnter (wait_nrc : bool)      (* with client.suppress_positive_response(wait_nrc=..): *)
+  | OSprEnter (wait_nrc : option bool)   (* with client.suppress_positive_response(wait_nrc=..): ; None = the bare form, without a call *)
   | OSprExit
   | OOvEnter (o : override)          (* with client.payload_override(..): *)
   | OOvExit
@@ -133,7 +133,7 @@ Definition enc_sdata_resp (o : option iresp) : list Z :=
 (* one operation: (observable output, configuration vector, client state, clock) *)
 Definition step_op (cfgv : list Z) (st : cstate) (now : Z) (o : op) : list Z * list Z * cstate * Z :=
   match o with
-  | OSprEnter w => ([], cfgv, spr_enter (spr_call st w), now)
+  | OSprEnter w => ([], cfgv, spr_enter (match w with Some b => spr_call st b | None => st end), now)
   | OSprExit => ([], cfgv, spr_exit st, now)
   | OOvEnter ovr => ([], cfgv, ov_enter st ovr, now)
   | OOvExit => ([], cfgv, ov_exit st, now)
@@ -249,7 +249,7 @@ Fixpoint decode_ops (n : nat) (a : list Z) (b : list bytes) : list op :=
   | O => []
   | S k =>
     match a with
-    | 0 :: w :: a' => OSprEnter (zb w) :: decode_ops k a' b
+    | 0 :: w :: a' => OSprEnter (if w =? 2 then None else Some (zb w)) :: decode_ops k a' b
     | 1 :: a' => OSprExit :: decode_ops k a' b
     | 2 :: kind :: a' =>
       OOvEnter (if kind =? 1 then OvConst (nth 0 b []) else OvFun (nth 0 b []) (nth 1 b [])) :: decode_ops k a' (skipn 2 b)
